@@ -1,1 +1,18 @@
--- stub: no theorems of C13 yet
+import WmModel.Props.C13
+import WmModel.Props.C13Tie
+#print axioms Wm.Poison.poisonKeys_distinct
+#print axioms Wm.Poison.lookup_stamp
+#print axioms Wm.Poison.poison_decision
+#print axioms Wm.Poison.poison_once_same_identity
+#print axioms Wm.Poison.pass_through
+#print axioms Wm.Poison.outs_unchanged
+#print axioms Wm.Poison.acked_implies_handled_or_poisoned
+#print axioms Wm.Poison.nacked_when_poison_publish_fails
+#print axioms Wm.Poison.nacked_when_filtered_out
+#print axioms Wm.Poison.acked_when_poisoned
+#print axioms Wm.Poison.poison_before_settle
+#print axioms Wm.Poison.stamp_overwrites
+#print axioms Wm.Poison.stamp_nodup
+#print axioms Wm.Poison.stream_eq_map
+#print axioms Wm.Poison.stream_publishes_once_each
+#print axioms Wm.GoPoison.extracted_middleware_eq_model
